@@ -20,8 +20,7 @@ KINDS = ('apply', 'map', 'imap', 'imapu')
 LWT = 10
 
 
-class Hang(Exception):
-    pass
+Hang = W.Hang
 
 
 def _scenario(kind, nproc, ev, want):
@@ -189,11 +188,12 @@ def _terminate(kind, nproc, ev, want):
 def _terminate_body(w, p, kind, nproc, ev, want):
     nd = ND(ev)
     obs = []
+    njobs = 3 - nd.draw(0, 3 if kind == 'apply' else 2)       # how much work is there when terminate() comes: none ... three pieces
     if kind == 'apply':
-        for t in ('a0', 'a1', 'a2'):
+        for t in ('a0', 'a1', 'a2')[:njobs]:
             obs.append(W.Observer(p.apply_async(W.val, (t,)), 'apply'))
     else:
-        items = ['m0', 'm1', 'm2']
+        items = ['m0', 'm1', 'm2'][:njobs]
         if kind == 'map':
             h = p.map_async(W.val, items, chunksize=1)
             W.int_timeout(h)
@@ -279,7 +279,7 @@ def _terminate_body(w, p, kind, nproc, ev, want):
 
 def h_terminate(ev: List[int]) -> bool:
     """
-    pre: len(ev) == K
+    pre: len(ev) == K + 1
     post: _
     """
     try:
@@ -290,7 +290,7 @@ def h_terminate(ev: List[int]) -> bool:
 
 def h_terminate_twin(ev: List[int]) -> bool:
     """
-    pre: len(ev) == K
+    pre: len(ev) == K + 1
     post: _
     """
     try:
@@ -535,5 +535,124 @@ def h_midtick_twin(code: int) -> bool:
     """
     try:
         return _midtick(code, True)
+    except Prune:
+        return True
+
+
+# ---------------------------------------------------------------------------
+# C08, parent side, threaded pool: terminate() while the task-feeder thread still has a job to feed.  The helper threads are
+# played by the harness (PoolThread.start is a no-op; a thread's body runs when the parent blocks on the task queue's read
+# lock - World.blocked_hook - or joins the thread, whichever comes first).
+
+def _terminate_threaded(code, want):
+    nd = NDCode(code)
+    nproc = 1 + nd.draw(0, 1)
+    nfed = nd.draw(0, 2)               # apply jobs already fed to the workers' pipe
+    unfed = nd.flag()                  # one more job is still in the feeder's own queue when terminate() comes
+    w = W.World()
+    played = {}
+    saved = (bp.PoolThread.start, bp.PoolThread.join, bp.PoolThread.is_alive)
+
+    def play(th):
+        if isinstance(th, bp.TaskHandler) and 'task' not in played:
+            played['task'] = 'running'
+            th.body()
+            played['task'] = 'done'
+            return True
+        if isinstance(th, bp.ResultHandler) and 'result' not in played:
+            played['result'] = 'running'
+            th.finish_at_shutdown()
+            played['result'] = 'done'
+            return True
+        return False
+
+    def alive(th):
+        key = 'task' if isinstance(th, bp.TaskHandler) else 'result' if isinstance(th, bp.ResultHandler) else None
+        return bool(getattr(th, '_was_started', False)) and key is not None and played.get(key) != 'done'
+    bp.PoolThread.start = lambda self, *a, **k: setattr(self, '_was_started', True)
+    bp.PoolThread.join = lambda self, timeout=None: play(self) and None
+    bp.PoolThread.is_alive = alive
+    p = None
+    try:
+        p = w.make_pool(nproc, threads=True, lost_worker_timeout=LWT, keep_finalizer=True)
+        obs = []
+        for k in range(nfed):
+            obs.append(W.Observer(p.apply_async(W.val, ('a%d' % k,)), 'apply'))
+        w.feed()
+        for _ in range(2):
+            e = nd.draw(0, 2)
+            if e < 2:
+                if e >= len(p._pool):
+                    raise Prune()
+                x = p._pool[e]
+                if x.state == 'idle' and p._inqueue.q:
+                    w.w_take(x)
+                elif x.state == 'busy':
+                    w.w_done(x)
+                else:
+                    raise Prune()
+            else:
+                w.rh()
+        if unfed:
+            obs.append(W.Observer(p.apply_async(W.val, ('late',)), 'apply'))     # stays in p._taskqueue: the feeder has not run yet
+        polls = [0]
+
+        def idle(timeout):
+            polls[0] += 1
+            if polls[0] > 40:
+                raise Hang('result handler still polling after 40 s')
+            for x in w.procs:
+                if x.exitcode is None and x.got_term and x.obeys_term:
+                    x.die(-15)
+            w.now = w.now + 1
+        p._outqueue._reader.idle_hook = idle
+
+        def on_join(proc):
+            if proc.got_term and proc.obeys_term:
+                proc.die(-15)
+            else:
+                raise Hang('join() on a worker that was never told to terminate')
+        w.join_hook = on_join
+        w.blocked_hook = lambda: play(p._task_handler)
+        try:
+            p.terminate()
+        except Hang as exc:
+            from harness.hbase import trace
+            trace('hang:', exc)
+            return fail('C08:terminate-does-not-return:threaded' + (':job-still-with-the-feeder' if unfed else ''))
+        if want:
+            return False if (unfed and played.get('task') == 'done') else True
+        if any(x.exitcode is None for x in w.procs):
+            return fail('C08:worker-alive-after-terminate')
+        if played.get('task') != 'done':
+            return fail('C08:task-feeder-thread-not-joined')
+        return True
+    finally:
+        bp.PoolThread.start, bp.PoolThread.join, bp.PoolThread.is_alive = saved
+        if p is not None:
+            p._outqueue._reader.idle_hook = None
+            p._terminate.cancel()
+        w.join_hook = None
+        w.blocked_hook = None
+
+
+def h_terminate_threaded(code: int) -> bool:
+    """
+    pre: 0 <= code < CODEMAX
+    post: _
+    """
+    try:
+        return _terminate_threaded(code, False)
+    except Prune:
+        return True
+
+
+def h_terminate_threaded_twin(code: int) -> bool:
+    """
+    pre: 0 <= code < CODEMAX
+    post: _
+    """
+    try:
+        return _terminate_threaded(code, True)
     except Prune:
         return True
